@@ -50,6 +50,25 @@ class Read:
         self.is_unmapped = ctx.bool(f"r{k}unm")
         self.is_qcfail = ctx.bool(f"r{k}qc")
         self.mapq = ctx.int(f"r{k}mq", 0, 60)
+        # further parts of pysam's AlignedSegment a coverage routine may look at; none of them is a
+        # reason not to count a read (the statement lists: duplicate, secondary, unmapped, QC-fail, low MAPQ)
+        self.is_supplementary = ctx.bool(f"r{k}sup")
+        self.is_paired = True
+        self.is_proper_pair = True
+        self.is_reverse = False
+        self.is_read1 = True
+        self.is_read2 = False
+        self.mate_is_unmapped = False
+        self.reference_start = self.start
+        self.reference_end = self.start + length
+        self.query_length = length
+
+    @property
+    def mapping_quality(self):
+        return self.mapq
+
+    def get_reference_positions(self, full_length=False):
+        return list(self.positions)
 
 
 class Bam:
@@ -125,6 +144,7 @@ def h_depth(ctx, lengths):
         ctx.cover("uncovered bin")
     ctx.claim(count == Count([counted(r, mq) for r in reads]), "the read count is the number of fetched reads that pass the filters")
     ctx.cover("read filtered", Or(*[Not(counted(r, mq)) for r in reads]))
+    ctx.cover("supplementary read counted", Or(*[And(counted(r, mq), r.is_supplementary) for r in reads]))
     ctx.cover("read straddles the bin edge", Or(*[And(r.positions[0] < s, r.positions[-1] >= s) for r in reads if len(r.positions) > 1]) if any(len(r.positions) > 1 for r in reads) else False)
 
 
@@ -377,7 +397,7 @@ def h_chunks(ctx, lines):
 L5 = ["chr1\t0\t10\tA", "#comment", "chr1\t10\t20\tB", "chr2\t5\t9\tC", "chr2\t9\t30\tD", "#tail"]
 
 HARNESSES = [
-    Harness("depth", h_depth, [{"lengths": [1]}, {"lengths": [3]}, {"lengths": [2, 2]}, {"lengths": [3, 3], "tier": "thorough"}], covers=["positive depth", "zero-width bin", "uncovered bin", "read filtered", "read straddles the bin edge", "bin runs past the contig end"], wall_s=300, keep_uf=True),
+    Harness("depth", h_depth, [{"lengths": [1]}, {"lengths": [3]}, {"lengths": [2, 2]}, {"lengths": [3, 3], "tier": "thorough"}], covers=["positive depth", "zero-width bin", "uncovered bin", "read filtered", "read straddles the bin edge", "bin runs past the contig end", "supplementary read counted"], wall_s=300, keep_uf=True),
     Harness("count_rows", h_count_rows, [{"order": list(o)} for o in ("abc", "cab", "bca", "ba")], covers=["reached"], wall_s=240, nonce_fork=False),
     Harness("pileup", h_pileup, [{"ncols": 3}, {"ncols": 4}, {"ncols": 6}], covers=["reached", "zero-width bin", "uncovered bin"], wall_s=240, keep_uf=True, nonce_fork=False),
     Harness("workers", h_workers, [{}], covers=["reached", "a read below the cut-off"], wall_s=240, keep_uf=True, nonce_fork=False),
